@@ -36,6 +36,9 @@ pub struct Evaluator<'a> {
     pub max_steps: u64,
     /// number of fold / loop iterations executed, match arms taken ... (for labels)
     pub iterations: u64,
+    /// externally supplied results for jets without a native reference (C13's direct differential):
+    /// name -> Ok(value) or Err(()) when the jet fails
+    pub jet_results: HashMap<String, Result<Val, ()>>,
 }
 
 type Env = Vec<Vec<(String, Val)>>;
@@ -92,6 +95,7 @@ impl<'a> Evaluator<'a> {
             steps: 0,
             max_steps: 3_000_000,
             iterations: 0,
+            jet_results: HashMap::new(),
         }
     }
 
@@ -307,6 +311,13 @@ impl<'a> Evaluator<'a> {
                 for (a, t) in args.iter().zip(&sig.params) {
                     vals.push(self.eval(a, t, env)?);
                 }
+                // an externally supplied result applies to the first call of that jet only
+                if let Some(r) = self.jet_results.remove(j.as_str()) {
+                    return match r {
+                        Ok(v) => Ok(v),
+                        Err(()) => Err(Stop::Panic(format!("jet {j} failed"))),
+                    };
+                }
                 match jets::eval(j, &vals) {
                     None => Err(Stop::Unsupported(format!("jet {j} has no reference"))),
                     Some(Err(())) => Err(Stop::Panic(format!("jet {j} failed"))),
@@ -431,7 +442,12 @@ pub fn run_main(prog: &Program, wits: &HashMap<String, Val>, params: &HashMap<St
 /// Recording run: fill the observation holes of `prog` under the intended assignment and
 /// return the program with holes replaced by literals. Holes that are never reached become 0 / false.
 pub fn fill_holes(prog: &Program, wits: &HashMap<String, Val>, params: &HashMap<String, Val>, perturb: Vec<bool>) -> (Program, Result<(), Stop>) {
+    fill_holes_with(prog, wits, params, perturb, HashMap::new())
+}
+
+pub fn fill_holes_with(prog: &Program, wits: &HashMap<String, Val>, params: &HashMap<String, Val>, perturb: Vec<bool>, jet_results: HashMap<String, Result<Val, ()>>) -> (Program, Result<(), Stop>) {
     let mut ev = Evaluator::new(prog, wits, params);
+    ev.jet_results = jet_results;
     ev.holes.recording = true;
     ev.holes.perturb = perturb;
     let verdict = ev.run();
